@@ -38,7 +38,7 @@ pub fn gen(rng: &mut Rng, tier: Tier, out: &mut Vec<String>) {
         let door = ['r', 'b', 'B', 'r'][i % 4];
         let tgt = if i % 7 == 6 { "cb" } else { "fb" };
         let k = 1;
-        let near = *rng.pick(&[0.1f32, 1.0, 0.5, 2.0, 10.0, 0.001, 0.01]);
+        let near = *rng.pick(&[0.1f32, 1.0, 0.5, 2.0, 10.0, 0.001, 0.01, 1e4, 1e6, 1e-6]);
         let far = near * *rng.pick(&[2.0f32, 10.0, 100.0, 1000.0]);
         let ortho = rng.chance(1, 4);
         let focal = *rng.pick(&[0.5f32, 1.0, 2.0, 1.7320508]);
